@@ -6,38 +6,53 @@ namespace Llir.Props.C01
 open Llir Llir.Whole
 
 /-- **Whole modules round-trip**: a module made of identified-struct type definitions, global variables with nested aggregate constants,
-    function definitions (any number of parameters and blocks, the 74 instruction rows) and a metadata section, printed as ONE text the way
+    function definitions (any number of parameters and blocks, the 76 instruction rows) and a metadata section, printed as ONE text the way
     `Module.String()` prints it, is split into its top-level entities, read and translated back to the module itself — provided each part is in
-    its fragment (`Core2.WF`, type definitions already in natural-sort order, `Core3.wf`, `Meta.wf`) and the cross-fragment conditions hold
-    (`crossOK`: no name shared by two globals / functions, every named type a function mentions is defined). -/
+    its fragment (`Core2.WF`, type definitions already in natural-sort order, `Core3.wfIn`, `Meta.wf`) and the cross-fragment conditions hold
+    (`crossOK`: no name shared by two globals / functions, every named type a function mentions is defined; `Core3.wfIn (genvOf …)`: every `@name`
+    operand of a function body is a global variable or a function of the module and is written at the type of a reference to it). -/
 theorem whole_roundtrip (useHex : Int → Bool) (m : Module)
     (h2 : Core2.WF ⟨m.typedefs, m.globals⟩) (hs : Core2.sortDefs m.typedefs = m.typedefs)
-    (h3 : ∀ f ∈ m.funcs, Core3.wf f = true) (hm : Meta.wf m.md = true) (hx : crossOK m = true) :
+    (h3 : ∀ f ∈ m.funcs, Core3.wfIn (genvOf m.globals m.funcs) f = true) (hm : Meta.wf m.md = true) (hx : crossOK m = true) :
     parse (printModule useHex m) = some m :=
   parse_print useHex m h2 hs h3 hm hx
 
 /-- and the printed text is a fixpoint -/
 theorem whole_fixpoint (useHex : Int → Bool) (m : Module)
     (h2 : Core2.WF ⟨m.typedefs, m.globals⟩) (hs : Core2.sortDefs m.typedefs = m.typedefs)
-    (h3 : ∀ f ∈ m.funcs, Core3.wf f = true) (hm : Meta.wf m.md = true) (hx : crossOK m = true) :
+    (h3 : ∀ f ∈ m.funcs, Core3.wfIn (genvOf m.globals m.funcs) f = true) (hm : Meta.wf m.md = true) (hx : crossOK m = true) :
     (parse (printModule useHex m)).map (printModule useHex) = some (printModule useHex m) := by
   rw [parse_print useHex m h2 hs h3 hm hx]; rfl
 
-/-- non-vacuity: the samples of the three fragments put together — a recursive struct type `%N`, a packed constant global, the function `@f` of
-    `core3Sample` and the metadata section `metaSample` — form a module that meets every hypothesis -/
-def wholeSample : Module := ⟨sample.typedefs, sample.globals, [core3Sample], metaSample⟩
+/-- non-vacuity: the samples of the three fragments put together — a recursive struct type `%N`, a packed constant global `@g`, a global
+    `@c = global i32 5`, the function `@f` of `core3Sample`, a function `@h` whose body loads from and stores to `@c`, converts the address of the
+    function `@f` and calls it, and the metadata section `metaSample` — form a module that meets every hypothesis -/
+def hSample : Core3.Func :=
+  ⟨.int 32, [104], [],
+   [⟨.id 0, [⟨some (.id 1), 23, [.ty (.int 32), .tyval (.ptr (.int 32) 0) (.glob [99]), .align (some 4)]⟩,
+            ⟨some (.id 2), 39, [.tyval (.ptr (.func (.int 32) (.cons (.int 32) (.cons (.int 32) .nil)) false) 0) (.glob [102]), .ty (.int 64)]⟩,
+            ⟨none, 24, [.tyval (.int 32) (.loc (.id 1)), .tyval (.ptr (.int 32) 0) (.glob [99]), .align none]⟩,
+            ⟨some (.id 3), 75, [.ty (.int 32), .val (.glob [102]), .tyvals [(.int 32, .loc (.id 1)), (.int 32, .const (.int 7))]]⟩],
+      ⟨none, 26, [.retv (some (.int 32, .loc (.id 1)))]⟩⟩]⟩
+
+def wholeSample : Module := ⟨sample.typedefs, sample.globals ++ [⟨[99], false, .int 32, .int 5⟩], [core3Sample, hSample], metaSample⟩
 
 example : Core2.WF ⟨wholeSample.typedefs, wholeSample.globals⟩ := by
   refine ⟨?_, ?_, ?_, by decide, by decide, by decide⟩
   · intro d hd; simp [wholeSample, sample] at hd; subst hd; exact ⟨by simp, by decide⟩
-  · intro g hg; simp [wholeSample, sample] at hg; subst hg; simp
-  · intro g hg; simp [wholeSample, sample] at hg; subst hg
-    exact ⟨by decide, by simp [Core2.cwf, Core2.clwf, Core2.firstNoBrace, Types.tyString]⟩
+  · intro g hg; simp [wholeSample, sample] at hg; rcases hg with rfl | rfl <;> simp
+  · intro g hg; simp [wholeSample, sample] at hg
+    rcases hg with rfl | rfl
+    · exact ⟨by decide, by simp [Core2.cwf, Core2.clwf, Core2.firstNoBrace, Types.tyString]⟩
+    · exact ⟨by decide, by simp [Core2.cwf]⟩
 example : Core2.sortDefs wholeSample.typedefs = wholeSample.typedefs := by
   simp [wholeSample, sample, Core2.sortDefs, Natsort.sort, Natsort.insert]
-example : ∀ f ∈ wholeSample.funcs, Core3.wf f = true := by
-  intro f hf; simp [wholeSample] at hf; subst hf; decide +kernel
+example : ∀ f ∈ wholeSample.funcs, Core3.wfIn (genvOf wholeSample.globals wholeSample.funcs) f = true := by
+  intro f hf; simp [wholeSample] at hf; rcases hf with rfl | rfl <;> decide +kernel
 example : Meta.wf wholeSample.md = true := by decide +kernel
 example : crossOK wholeSample = true := by decide +kernel
+
+/-- and a function body that mentions a global the module does not define is rejected: `@h` without the global `@c` -/
+example : parse (printModule (fun _ => false) { wholeSample with globals := sample.globals }) = none := by decide +kernel
 
 end Llir.Props.C01
